@@ -70,7 +70,13 @@ func LoadEngine(cfg LoadConfig) (*Engine, error) {
 	if err != nil {
 		return nil, err
 	}
-	pcfg := &packages.Config{Mode: packages.LoadAllSyntax, Dir: cfg.RepoDir, Overlay: ov, Env: os.Environ()}
+	// pin the toolchain whose standard library is encoded (the same one runs the native replays)
+	os.Setenv("PATH", "/opt/veriftools/go1.26.8/bin:"+os.Getenv("PATH"))
+	os.Setenv("GOTOOLCHAIN", "local")
+	os.Setenv("GOFLAGS", "-mod=mod")
+	os.Setenv("GOPROXY", "off")
+	env := os.Environ()
+	pcfg := &packages.Config{Mode: packages.LoadAllSyntax, Dir: cfg.RepoDir, Overlay: ov, Env: env}
 	pats := append([]string{"./..."}, cfg.Extra...)
 	pkgs, err := packages.Load(pcfg, pats...)
 	if err != nil {
